@@ -258,4 +258,38 @@ example : ∃ (inv : InvFn ℝ) (R : SNoise ℝ (2 * 1) 1) (m : Vec ℝ 1) (P : 
     have h21 : (2 : Fin 3) ≠ 1 := by decide
     norm_num [h2, h21]
 
+/-! ### Deepening round -/
+
+/-- Without the contract `hX` of `sigma_point()` the two covariances differ exactly by the defect of the
+    sigma points: `X C Xᵀ = (P − K S Kᵀ) + (Σ_j wc_j Xo_j Xo_jᵀ − P)`.  (This is the form the correspondence
+    check evaluates on the implementation's sigma points, which reproduce `P` only up to rounding.) -/
+theorem sukf_cov_eq_ukf_general (inv : InvFn ℝ) (hinv : InvCorrect inv) (nc : Nat) (R : SNoise ℝ (nb * bs) bs)
+    (m : Vec ℝ n) (P : Mat ℝ n n) (X : Mat ℝ n s) (Yp : Mat ℝ (nb * bs) s) (wm wc : Vec ℝ s) (y : Vec ℝ (nb * bs))
+    (hw : ∀ j, 0 ≤ wc j) (hBD : R.BlockDiag) (hRpd : ∀ j, (toM (R.blockAt j)).PosDef) :
+    toM (sukfComp inv nc R m X Yp wm wc y).cov
+      = toM (ukfComp inv nc R.toFull m P X Yp wm wc y).cov
+        + (toM (wOuter (offX nc m X) wc (offX nc m X)) - toM P) := by
+  have h := (sukf_cov_eq_ukf inv hinv nc R m (wOuter (offX nc m X) wc (offX nc m X)) X Yp wm wc y hw hBD hRpd rfl).1
+  rw [h]
+  simp only [ukfComp, toM_sub, Mat.eval_eq]
+  abel
+
+/-- The block-diagonality of a full noise covariance is needed: the serial correction reads only the
+    diagonal blocks.  Witness: `R = [[1, 1/2], [1/2, 1]]` with block size 1 — positive definite blocks `1`, `1`,
+    but `R` is not the block-diagonal matrix of its blocks (so the standard correction, which is given `R`,
+    uses a different innovation covariance). -/
+theorem sukf_blockdiag_needed :
+    ∃ R0 : Mat ℝ (2 * 1) (2 * 1), (∀ j, (toM ((SNoise.full R0 : SNoise ℝ (2 * 1) 1).blockAt j)).PosDef) ∧
+      toM (SNoise.full R0 : SNoise ℝ (2 * 1) 1).toFull ≠ (SNoise.full R0 : SNoise ℝ (2 * 1) 1).Rf := by
+  refine ⟨Mat.of (fun p q => if p = q then 1 else 1 / 2), fun j => ?_, fun h => ?_⟩
+  · have : toM ((SNoise.full (Mat.of (fun p q => if p = q then (1:ℝ) else 1 / 2)) : SNoise ℝ (2 * 1) 1).blockAt j) = 1 := by
+      ext a c
+      have ha : a = 0 := Subsingleton.elim _ _
+      have hc : c = 0 := Subsingleton.elim _ _
+      subst ha; subst hc
+      simp [SNoise.blockAt, Mat.blkDiag]
+    rw [this]; exact Matrix.PosDef.one
+  · have h01 := congrFun (congrFun h (0 : Fin (2 * 1))) (1 : Fin (2 * 1))
+    simp [SNoise.toFull, SNoise.Rf, bdiag, Fin.divNat] at h01
+
 end BFL
